@@ -226,7 +226,12 @@ def rb_setup():
         shadow(cls, '_initialize_stored_coefficients', lambda self: None)
         shadow(cls, 'effective_borehole_thermal_resistance', effective)
 
+    real_hf = gt.pipes.convective_heat_transfer_coefficient_circular_pipe
+    real_hfa = gt.pipes.convective_heat_transfer_coefficient_concentric_annulus
+
     def hf(m_flow, r, *a):
+        if not isinstance(m_flow, Sym):        # concrete flow case: the real correlation, natively
+            return float(real_hf(m_flow, r, *a))
         key = (_t(m_flow).sexpr(), float(r))
         if key not in st['hf']:
             h = Sym(E().fresh('h_f'))
@@ -235,6 +240,9 @@ def rb_setup():
         return st['hf'][key]
 
     def hf_annulus(m_flow, r_a, r_b, *a):
+        if not isinstance(m_flow, Sym):
+            x, y = real_hfa(m_flow, r_a, r_b, *a)
+            return float(x), float(y)
         return hf(m_flow, r_a), hf(m_flow, r_b)
     shadow(gt.pipes, 'convective_heat_transfer_coefficient_circular_pipe', hf)
     shadow(gt.pipes, 'convective_heat_transfer_coefficient_concentric_annulus', hf_annulus)
@@ -264,7 +272,11 @@ def _shallow(x):
     return copy.copy(x)
 
 
-def rb_body(v, geom):
+FLOWS = {'water_laminar': ('Water', 0.0, 0.05), 'water_turbulent': ('Water', 0.0, 0.5), 'pg30_low': ('PropyleneGlycol', 30.0, 0.2),
+         'eg20_low': ('EthyleneGlycol', 20.0, 0.1)}
+
+
+def rb_body(v, geom, flowcase=None):
     """returns dict of clause-name -> truth"""
     import ghedesigner.borehole_heat_exchangers as B
     import ghedesigner.utilities as U
@@ -280,7 +292,13 @@ def rb_body(v, geom):
     k1 = v.real('k1', 0.01, 7.0)
     k2 = v.real('k2', 0.01, 7.0)
     v.assume(k1 < k2)
-    if sym:
+    if flowcase is not None:
+        from ghedesigner.media import GHEFluid
+        fs, pct, vflow = FLOWS[flowcase]
+        fluid = GHEFluid(fluid_str=fs, percent=pct)
+        m = vflow / 1000.0 * fluid.rho          # concrete flow: the convection coefficients come from the real correlation
+        bh = NS(H=100.0, D=2.0, r_b=g['r_b'], x=0.0, y=0.0) if sym else GHEBorehole(100.0, 2.0, g['r_b'], x=0.0, y=0.0)
+    elif sym:
         fluid = NS(cp=4182.0, mu=1e-3, rho=998.0, k=0.6)
         bh = NS(H=100.0, D=2.0, r_b=g['r_b'], x=0.0, y=0.0)
     else:
@@ -333,6 +351,7 @@ def rb_body(v, geom):
         out['grout_k_is_the_root'] = implies(rg['bracketed'], single.grout.k == rg['returned'])
         out['rfp_matched_when_root_bracketed'] = implies(rp['bracketed'], single.R_fp == target)
         out['pipe_k_consistent'] = implies(rp['bracketed'], single.pipe.k == rp['returned'])
+        out['rfp_matched'] = single.R_fp == target            # unconditional: claimed only where the convection coefficients are concrete
         out['same_flow_and_soil'] = conj([single.m_flow_borehole is m, single.soil is soil, single.grout is not grout, grout.k is k_g, orig.pipe.k is k_p or g['kind'] != 'du'])
     else:
         out['objective_strictly_increasing_in_k_grout'] = bool(rg['monotone'])
@@ -345,6 +364,7 @@ def rb_body(v, geom):
         out['grout_k_is_the_root'] = (not rg['bracketed']) or single.grout.k == rg['returned']
         out['rfp_matched_when_root_bracketed'] = (not rp['bracketed']) or abs(single.R_fp - target) <= 1e-3 * target
         out['pipe_k_consistent'] = (not rp['bracketed']) or abs(single.pipe.k - rp['returned']) <= 1e-5 * max(1.0, rp['returned'])
+        out['rfp_matched'] = abs(single.R_fp - target) <= 1e-3 * target
         out['same_flow_and_soil'] = single.m_flow_borehole == m and single.soil is soil and single.grout is not grout and grout.k == k_g
         out['_observed'] = dict(rb_original=rb_orig, rb_equivalent=before, rb_equivalent_recomputed=after, k_grout_equivalent=single.grout.k,
                                  objective_at_k1_k2='constant' if not rg['monotone'] else 'increasing')
@@ -353,11 +373,12 @@ def rb_body(v, geom):
 
 GROUT = ('objective_strictly_increasing_in_k_grout', 'stored_resistances_match_final_parameters', 'rb_matched_when_root_bracketed', 'grout_k_is_the_root')
 PIPE = ('rfp_matched_when_root_bracketed', 'pipe_k_consistent', 'same_flow_and_soil')
+PIPE_FLOW = ('rfp_matched', 'pipe_k_consistent')
 
 
-def make_rb_fn(geom, names, twin=False):
+def make_rb_fn(geom, names, twin=False, flowcase=None):
     def fn(e):
-        out = rb_body(V(e=e), geom)
+        out = rb_body(V(e=e), geom, flowcase)
         if twin:
             return False
         bad = [n for n in names if out[n] is False]
@@ -366,10 +387,10 @@ def make_rb_fn(geom, names, twin=False):
     return fn
 
 
-def make_rb_replay(geom, names):
+def make_rb_replay(geom, names, flowcase=None):
     def replay(model, notes):
         restore_shadows()
-        out = rb_body(V(model=model), geom)
+        out = rb_body(V(model=dict(model, m_flow=model.get('m_flow', 0.3))), geom, flowcase)
         bad = [n for n in names if not out[n]]
         return bool(bad), dict(failed=bad, observed=out.get('_observed'), inputs=model)
     return replay
@@ -402,6 +423,12 @@ def units(tier, seed):
              'geometry %s concrete; grout k in [0.3,3.5], soil k in [0.5,5], pipe k in [0.2,1], mass flow in [0.1,1.5] kg/s, trial conductivities '
              'k1 < k2 in [0.01,7], convection coefficients (abstract) in [10,1e5]: all reals' % geom, AS2, ST2, max_seconds=600)
         for geom in GEOMS for pre, names in (('grout_solve', GROUT), ('pipe_solve', PIPE))
+    ] + [
+        Unit('pipe_solve_%s_%s' % (geom, fc), make_rb_fn(geom, PIPE_FLOW, flowcase=fc), make_rb_replay(geom, PIPE_FLOW, flowcase=fc), rb_setup, F2,
+             'geometry %s and flow case %s (fluid, %g L/s) concrete: convection coefficients from the real pygfunction correlations (computed natively); '
+             'pipe k in [0.2,1], grout k, soil k all reals' % (geom, fc, FLOWS[fc][2]), AS2[:2], ST2, max_seconds=600)
+        for geom in (GEOMS if tier == 'thorough' else ['double_u_parallel', 'double_u_series', 'coaxial'])
+        for fc in (FLOWS if tier == 'thorough' else ['water_laminar', 'pg30_low', 'water_turbulent'])
     ] + [
         Unit('twin_reachability_rb', make_rb_fn('double_u_parallel', GROUT, twin=True), None, rb_setup, F2, 'assert False must be violated', expect_cex=True),
         Unit('twin_reachability', make_fn(double_u_body, twin=True), None, setup, F, 'assert False must be violated', expect_cex=True),
